@@ -132,6 +132,7 @@ func (r *Runner) RunCheck(ck *Check, tier string, seed int, filter string) int {
 	exit := 0
 	var total smt.Stats
 	paths, steps, obl, disch, triv := 0, int64(0), 0, 0, 0
+	sweepP, sweepC := 0, 0
 	inconclusive := []string{}
 	funcs := map[string]bool{}
 	var samples []interface{}
@@ -155,6 +156,8 @@ func (r *Runner) RunCheck(ck *Check, tier string, seed int, filter string) int {
 		for _, f := range cr.Funcs {
 			funcs[f] = true
 		}
+		sweepP += cr.SweepProved
+		sweepC += cr.SweepCandidates
 		if len(samples) < 6 && cr.Status == sym.StatusOK {
 			samples = append(samples, map[string]interface{}{"case": cr.Case.Key(), "paths": cr.Paths, "obligations": cr.Obligations,
 				"solver_queries": cr.Stats.Queries, "reached": cr.Reached, "path_samples": cr.Sample})
@@ -320,6 +323,7 @@ func (r *Runner) RunCheck(ck *Check, tier string, seed int, filter string) int {
 		"discharged_by_solver":          disch,
 		"discharged_by_simplification":  triv,
 		"queries":                       map[string]interface{}{"total": total.Queries, "sat": total.Sat, "unsat": total.Unsat, "unknown": total.Unknown, "errors": total.Errors},
+		"lemmas_chained":                map[string]int{"candidates": sweepC, "proved_by_solver": sweepP},
 		"solver":                        r.Solver,
 		"cross_check_solver":            r.Cross,
 		"solver_time_s":                 total.Time.Seconds(),
